@@ -14,9 +14,17 @@ def run_python(lines):
     return out
 
 
+MAX_ATTRS = 2500   # the model's attribute environment is a plain list (quadratic): very large
+                   # messages are checked on the implementation only (counted in `skipped_large`)
+skipped_large = 0
+
+
 def compare(lines):
-    """returns (n, diffs) with diffs = list of (line, python_answer, model_answer)"""
+    """returns (n_compared, diffs, python_answers) with diffs = list of (line, python_answer, model_answer)"""
+    global skipped_large
     py = run_python(lines)
-    mo = [canon.canon_model_line(x) for x in run_model(lines)]
-    diffs = [(l, a, b) for l, a, b in zip(lines, py, mo) if a != b]
-    return len(lines), diffs, py
+    keep = [i for i, a in enumerate(py) if a.count("=") <= MAX_ATTRS]
+    skipped_large += len(lines) - len(keep)
+    mo = [canon.canon_readp_model(canon.canon_model_line(x)) for x in run_model([lines[i] for i in keep])]
+    diffs = [(lines[i], py[i], b) for i, b in zip(keep, mo) if py[i] != b]
+    return len(keep), diffs, py
